@@ -7,6 +7,7 @@ From Coq Require Import List ZArith NArith Bool.
 From Coq.Strings Require Import Byte.
 Import ListNotations.
 From SV Require Import Text C01_Lines G_codes G_c01_io.
+Local Open Scope nat_scope.
 
 (* ---------------------------------------------------------------- results *)
 Inductive res (A : Type) : Type :=
@@ -42,6 +43,8 @@ Record bseq := mk_bseq {
   b_header : option str;    (* meta._fasta.header when present *)
   b_fmt : option str        (* meta._fmt when present *)
 }.
+
+Definition opt_eqb_str (o : option str) (x : str) : bool := match o with Some y => str_eqb y x | None => false end.
 
 Fixpoint has_key {V} (k : byte) (t : list (byte * V)) : bool :=
   match t with
@@ -229,26 +232,77 @@ Definition stk_seq_line (s : bseq) : str := py_str_opt (b_id s) ++ SP :: b_data 
 Definition write_stockholm_lines (b : list bseq) : list str :=
   bs "# STOCKHOLM 1.0"%bs :: map stk_seq_line b ++ [bs "//"%bs].
 
-(* ---------------------------------------------------------------- GFF sequence section, gff.py:105-113, 168-174 *)
+(* ---------------------------------------------------------------- GFF: feature lines (minimal) and sequence section *)
+(* The content of features is property C02; here only what the SEQUENCE round trip needs: which lines the feature reader
+   accepts (gff.py:52-84: 9 tab separated columns, int(start)-1 < int(stop), a valid strand, score/phase '.' or a number,
+   attributes '.' or key=value pieces; every failure is a ValueError) and the line the writer emits for a plain
+   single-location feature (gff.py:120-165). *)
+Definition TAB : byte := x09.
+Definition PCT : byte := "%"%byte.
+Definition DOT : str := ["."%byte].
+Definition is_alnum (c : byte) : bool :=
+  let n := Byte.to_N c in
+  ((N.leb 48 n && N.leb n 57) || (N.leb 65 n && N.leb n 90) || (N.leb 97 n && N.leb n 122))%N.
+(* urllib.parse.quote(s) (safe='/') on ASCII text *)
+Definition unreserved (c : byte) : bool := is_alnum c || mem c (bs "_.-~/"%bs).
+Definition hexU (n : N) : byte :=
+  match n with
+  | 0 => "0" | 1 => "1" | 2 => "2" | 3 => "3" | 4 => "4" | 5 => "5" | 6 => "6" | 7 => "7"
+  | 8 => "8" | 9 => "9" | 10 => "A" | 11 => "B" | 12 => "C" | 13 => "D" | 14 => "E" | _ => "F"
+  end%N%byte.
+Definition quote1 (c : byte) : str :=
+  if unreserved c then [c] else let n := Byte.to_N c in [PCT; hexU (N.div n 16); hexU (N.modulo n 16)].
+Definition quote (s : str) : str := flat_map quote1 s.
+
+(* a plain feature: Feature(type, [Location(start, stop, strand)]) with ft.seqid = seqid *)
+Record gft := mk_gft { g_seqid : str; g_type : str; g_start : nat; g_stop : nat; g_strand : byte }.
+Definition gff_ft_cols (ft : gft) : list str :=
+  [quote (g_seqid ft); DOT; g_type ft; dec_of_nat (S (g_start ft)); dec_of_nat (g_stop ft); DOT; [g_strand ft]; DOT; DOT].
+(* f'{seqid}\t{source}\t{type_}\t{loc.start+1}\t{loc.stop}\t{nscore}\t{loc.strand}\t{nphase}\t{attrstr}' *)
+Definition gff_ft_line (ft : gft) : str := join [TAB] (gff_ft_cols ft).
+
+(* int(unquote(col)): columns containing '%' are not modelled (rejected) *)
+Definition py_int (s : str) : option Z := if mem PCT s then None else Z_of_dec (strip s).
+Definition is_some {A} (o : option A) : bool := match o with Some _ => true | None => false end.
+Definition STRANDS : str := bs "+-.?"%bs.
+Definition strand_ok (s : str) : bool := match s with [c] => mem c STRANDS | _ => false end.
+Definition num_or_dot (s : str) : bool := str_eqb s DOT || is_some (py_int s).
+Definition attrs_ok (a : str) : bool :=
+  str_eqb a DOT || forallb (fun kv => mem "="%byte (strip kv)) (split_on ";"%byte a).
+(* does read_fts_gff accept this (non-comment, non-blank) line without raising? *)
+Definition gff_ft_ok (l : str) : bool :=
+  match split_on TAB (strip l) with
+  | [_; _; _; start; stop; score; strand; phase; attrs] =>
+      match py_int start, py_int stop with
+      | Some a, Some b => Z.ltb (a - 1) b && strand_ok strand && num_or_dot score && num_or_dot phase && attrs_ok attrs
+      | _, _ => false
+      end
+  | _ => false
+  end.
+
 Definition GFF_FASTA : str := bs "##FASTA"%bs.
-(* read_fts_gff consumes the lines up to and including the first '##FASTA' line; comment and blank lines are skipped,
-   feature lines belong to C02 and are outside this model: [None] *)
-Fixpoint gff_skip (ls : list str) : option (list str) :=
+Definition is_blank (l : str) : bool := match strip l with [] => true | _ => false end.
+(* read_fts_gff consumes the lines up to and including the first '##FASTA' line (gff.py:52-58) *)
+Fixpoint gff_skip (ls : list str) : res (list str) :=
   match ls with
-  | [] => Some []
+  | [] => Ok []
   | l :: rest =>
-      if startswith GFF_FASTA l then Some rest
-      else if head_is HASH l || (match strip l with [] => true | _ => false end) then gff_skip rest
-      else None
+      if startswith GFF_FASTA l then Ok rest
+      else if head_is HASH l || is_blank l then gff_skip rest
+      else if gff_ft_ok l then gff_skip rest
+      else Err E_Value
   end.
 Definition read_gff_lines (ls : list str) : res (list bseq) :=
-  match gff_skip ls with
-  | Some rest => read_fasta_lines rest
-  | None => Err E_Value
-  end.
-(* write_fts_gff of an empty feature list, '##FASTA', then the nested write(seqs, f, fmt='fasta') *)
-Definition write_gff_lines (b : list bseq) : list str :=
-  bs "##gff-version 3"%bs :: GFF_FASTA :: write_fasta_lines b.
+  bind (gff_skip ls) read_fasta_lines.
+(* write_fts_gff of the feature lines, '##FASTA', then the nested write(seqs, f, fmt='fasta') *)
+Definition write_gff_lines_fts (fl : list str) (b : list bseq) : list str :=
+  bs "##gff-version 3"%bs :: fl ++ GFF_FASTA :: write_fasta_lines b.
+Definition write_gff_lines (b : list bseq) : list str := write_gff_lines_fts [] b.
+(* BioBasket.fts: the features of each sequence in basket order; the setter attaches a feature to the sequence whose id
+   equals its seqid (seq.py:733-752), features of unknown seqids are dropped with a warning *)
+Definition basket_fts (fts : list gft) (b : list bseq) : list gft :=
+  flat_map (fun s => filter (fun f => opt_eqb_str (b_id s) (g_seqid f)) fts) b.
+Definition basket_ft_lines (fts : list gft) (b : list bseq) : list str := map gff_ft_line (basket_fts fts b).
 
 (* ---------------------------------------------------------------- SJSON at tree level, sjson.py:26-85 *)
 Inductive tree :=
@@ -377,6 +431,12 @@ Definition content_app (a b : content) : content :=
 Definition write_file (f : fmt) (mode_a : bool) (old : content) (b : list bseq) : res content :=
   bind (write_dispatch f mode_a (negb mode_a) b) (fun c => Ok (if mode_a then content_app old c else c)).
 Definition write_w (f : fmt) (b : list bseq) : res content := write_file f false (CText []) b.
+(* writing a basket whose sequences carry the plain features fts (only GFF writes them; SJSON with features is C14) *)
+Definition write_w_fts (f : fmt) (fts : list gft) (b : list bseq) : res content :=
+  match f with
+  | Gff => Ok (CText (unlines (write_gff_lines_fts (basket_ft_lines fts b) b)))
+  | _ => write_w f b
+  end.
 
 (* read(): read_<fmt> | list(iter_<fmt>), then meta._fmt = fmt on every sequence *)
 Definition text_lines (t : str) : list str := pylines (univ_nl t).
@@ -426,6 +486,12 @@ Fixpoint distinct (l : list str) : bool :=
   | [] => true
   | x :: r => negb (existsb (str_eqb x) r) && distinct r
   end.
+
+(* plain features: printable seqid and type without whitespace, start < stop, a legal strand; the seqid '.' is GFF's
+   placeholder for 'no seqid' (a feature on a sequence named '.' is read back without seqid and is not re-attached: C02) *)
+Definition wf_gft (ft : gft) : bool :=
+  negb (str_eqb (g_seqid ft) DOT) &&
+  (id_plain (g_seqid ft) && id_plain (g_type ft) && Nat.ltb (g_start ft) (g_stop ft) && mem (g_strand ft) STRANDS).
 
 Definition wf_input_seq (f : fmt) (x : input_seq) : bool :=
   match x with
@@ -506,6 +572,16 @@ Definition norm_fasta (f : fmt) (s : bseq) : bseq :=
 Definition norm_plain (f : fmt) (s : bseq) : bseq :=
   mk_bseq (b_data s) (b_id s) (b_nt s) None (Some (fmt_name f)).
 
+(* Stockholm rows 'id residues' of an alignment block, and the row-wise concatenation of two blocks *)
+Definition row_ok (kv : str * str) : bool :=
+  id_stk_ok (fst kv) && residues_ok (snd kv) && match snd kv with [] => false | _ => true end.
+Definition row_line (kv : str * str) : str := fst kv ++ SP :: snd kv.
+Fixpoint zip_app (vs ws : list str) : list str :=
+  match vs, ws with
+  | v :: vs', w :: ws' => (v ++ w) :: zip_app vs' ws'
+  | _, _ => []
+  end.
+
 (* re-wrapping: the lines of a record body, and what they contribute *)
 Definition is_body_line (l : str) : bool := negb (head_is GT l).
 Definition payload (body : list str) : str :=
@@ -537,13 +613,13 @@ Definition show_content (c : content) : val :=
   end.
 Definition show_res (r : res val) : val := match r with Ok v => v | Err e => VE e end.
 
-(* write -> read -> write -> read -> write starting from a basket *)
-Definition cycle_from (f : fmt) (b0 : list bseq) : res val :=
-  bind (write_w f b0) (fun t1 =>
+(* write -> read -> write -> read -> write starting from a basket (with plain features fts attached, for GFF) *)
+Definition cycle_from (f : fmt) (fts : list gft) (b0 : list bseq) : res val :=
+  bind (write_w_fts f fts b0) (fun t1 =>
   bind (read_content f t1) (fun o1 =>
-  bind (write_w f o1) (fun t2 =>
+  bind (write_w_fts f fts o1) (fun t2 =>
   bind (read_content f t2) (fun o2 =>
-  bind (write_w f o2) (fun t3 =>
+  bind (write_w_fts f fts o2) (fun t3 =>
   Ok (VL [show_content t1; show_basket o1; show_content t2; show_basket o2; show_content t3;
           VB (basket_eqb o1 o2)])))))).
 (* read -> write -> read -> write starting from a text *)
@@ -562,18 +638,27 @@ Definition append_halves (f : fmt) (b1 b2 : list bseq) : res val :=
   Ok (VL [show_content ca; show_content cc;
           show_res (bind (read_content f ca) (fun o => Ok (show_basket o)))])))).
 
-Definition wf_C01 (op : N) (f : fmt) (xs ys : list input_seq) (t : str) : bool :=
+Definition input_ft : Type := (str * str * nat * nat * byte)%type.
+Definition build_ft (x : input_ft) : gft := match x with (i, t, a, e, st) => mk_gft i t a e st end.
+Definition build_fts (l : list input_ft) : list gft := map build_ft l.
+
+Definition wf_C01 (op : N) (f : fmt) (xs ys : list input_seq) (fts : list gft) (t : str) : bool :=
   match op with
   | 0%N => wf_basket f xs
+           && match fts with
+              | [] => true
+              | _ => match f with Gff => distinct (input_ids xs) && forallb wf_gft fts | _ => false end
+              end
   | 1%N => match f with Fasta => wf_basket Fasta (xs ++ ys) | _ => false end
   | _ => wf_text f t
   end.
 
-Definition run_C01 (op fmtn : N) (xs ys : list input_seq) (t : str) : val :=
+Definition run_C01 (op fmtn : N) (xs ys : list input_seq) (fl : list input_ft) (t : str) : val :=
   let f := fmt_of_N fmtn in
-  VL [VB (wf_C01 op f xs ys t);
+  let fts := build_fts fl in
+  VL [VB (wf_C01 op f xs ys fts t);
       show_res (match op with
-                | 0%N => cycle_from f (build xs)
+                | 0%N => cycle_from f fts (build xs)
                 | 1%N => append_halves f (build xs) (build ys)
                 | _ => cycle_text f t
                 end)].
